@@ -742,3 +742,60 @@ def rule_classless_counted(ctx):
             ctx.violated("CLASSLESS", key, f.where(line), "this count of user-created vgroups is never reached for a vgroup without a class: such vgroups are skipped in this mode")
     ctx.floor("CLASSLESS", 2, len(a.sites), "(places where Vgetvgroups counts user-created vgroups)")
     return len(a.sites)
+
+
+class _PreRead(PathAnalysis):
+    def __init__(self, prog):
+        super().__init__(prog)
+        self.exits = []
+        self.reads = 0
+
+    def init_user(self, func):
+        return (False, False)  # (the element was read since its last seek, the bit file is in write mode)
+
+    def on_stmt(self, func, bid, idx, stmt, env, user):
+        from .facts import is_int, int_val
+        r, w = user
+        for x in walk(stmt["e"]):
+            if x[0] == "call" and x[3] and (mem_field(x[3][0]) or (0, 0))[1] == "acc_id":
+                if x[1] == "Hread":
+                    r = True
+                    self.reads += 1
+                elif x[1] == "Hseek":
+                    r = False
+            elif x[0] == "asg" and (mem_field(x[2]) or (0, 0))[1] == "mode" and is_int(x[3]):
+                w = int_val(x[3]) == ord("w")
+        return (r, w)
+
+    def on_exit(self, func, bid, retval, env, user):
+        self.exits.append((classify_ret(retval, self.fails), user))
+
+
+def rule_preread_then_seek(ctx):
+    """PREREADSEEK (C05): a bit file in write mode keeps a block of the element in its buffer and writes the buffer back at
+    `block_offset` with a plain Hwrite on the underlying access element.  When the buffer is filled by *reading* that block
+    (rewriting an existing element), the read moves the access element to the end of the block; a routine that leaves the bit
+    file in write mode must have moved it back (Hseek) after its last read, or the first flush lands one block further on."""
+    prog = ctx.prog
+    n = 0
+    for f in prog.lib_funcs():
+        if not f.rel.endswith("hbitio.c"):
+            continue
+        a = _PreRead(prog)
+        a.fails = fail_values(f, prog)
+        try:
+            a.run(f)
+        except Exception:
+            continue
+        ends_w = [u for cls, u in a.exits if cls != "fail" and u[1]]
+        if not a.reads or not ends_w:
+            continue
+        n += 1
+        key = "PREREADSEEK:%s" % f.name
+        if any(r for r, w in ends_w):
+            ctx.violated("PREREADSEEK", key, f.where(), "%s can return with the bit file in write mode and the access element still positioned behind the block it has just read into "
+                         "the buffer: the buffer will be written back at the wrong offset" % f.name)
+        else:
+            ctx.holds("PREREADSEEK", key, f.where(), "every pre-read is followed by a seek back before the routine returns in write mode", nontrivial=True)
+    ctx.floor("PREREADSEEK", 1, n, "(bit-I/O routines that pre-read a block and end in write mode)")
+    return n
